@@ -98,11 +98,17 @@ END;
 	{"px-noname-tip", "phyloxml", `<phyloxml><phylogeny rooted="true"><clade><clade></clade><clade><name>b</name></clade></clade></phylogeny></phyloxml>`},
 	{"px-root-length-confidence", "phyloxml", `<phyloxml><phylogeny rooted="true"><clade><name>root</name><branch_length>0.5</branch_length><confidence type="bootstrap">0.9</confidence><clade><name>a</name><branch_length>1</branch_length><confidence type="x">0.1</confidence></clade><clade><branch_length>2</branch_length><confidence type="bootstrap">0.7</confidence><clade><name>b</name></clade><clade><name>c</name></clade></clade></clade></phylogeny></phyloxml>`},
 	{"px-attrs-and-extras", "phyloxml", `<?xml version="1.0"?><phyloxml><phylogeny rooted="maybe" rerootable="true"><name>x</name><description>d</description><clade branch_length="0.3"><clade><name>a</name><events><speciations>1</speciations></events></clade><clade><name>b</name><property ref="p" datatype="xsd:string" applies_to="clade">v</property></clade></clade></phylogeny><phylogeny rooted="false"></phylogeny></phyloxml>`},
+	{"px-empty-elements", "phyloxml", `<phyloxml><phylogeny rooted="true"><clade><clade/><clade><name/><branch_length/></clade><clade><name>a</name><confidence/></clade></clade></phylogeny><phylogeny/></phyloxml>`},
+	{"px-cdata-entities", "phyloxml", `<?xml version="1.0"?><!DOCTYPE phyloxml><phyloxml><!-- c --><phylogeny rooted="false"><clade><clade><name><![CDATA[a<b]]></name></clade><clade><name>x&amp;y&#65;</name><branch_length> 1e-2 </branch_length></clade><clade><name>c</name><branch_length>-1</branch_length><confidence type="b">NaN</confidence></clade></clade></phylogeny></phyloxml>`},
+	{"nx-huge-dimensions", "nexus", "#NEXUS\nBEGIN TAXA;\nDIMENSIONS NTAX=3;\nTAXLABELS a b c;\nEND;\nBEGIN DATA;\nDIMENSIONS NTAX=3 NCHAR=2;\nFORMAT DATATYPE=DNA;\nMATRIX\na AC\nb AG\nc AT\n;\nEND;\nBEGIN TREES;\nTREE t=(a,b,c);\nEND;\n"},
 	// ---- Nextstrain
 	{"ns-small", "nextstrain", `{"version":"v2","meta":{"title":"t"},"tree":{"name":"NODE_0","node_attrs":{"div":0},"children":[{"name":"a","node_attrs":{"div":1.5,"num_date":{"value":2020.1,"confidence":[2020.0,2020.2]},"country":{"value":"FR"},"accession":"AB:1, 2"},"branch_attrs":{"labels":{"aa":"S: A1B, C2D"},"mutations":{"nuc":["A1T"]}}},{"name":"NODE_1","node_attrs":{"div":1},"children":[{"name":"b","node_attrs":{"div":2}},{"name":"c","node_attrs":{"div":2.5}}]}]}}`},
 	{"ns-v1", "nextstrain", `{"version":"v1","tree":{"name":"r","children":[]}}`},
 	{"ns-leaf-root", "nextstrain", `{"version":"v2","tree":{"name":"only"}}`},
 	{"ns-notree", "nextstrain", `{"version":"v2"}`},
+	{"ns-nulls", "nextstrain", `{"version":"v2","tree":{"name":"r","node_attrs":null,"branch_attrs":null,"children":[{"name":"a","children":null},null,{"name":null,"children":[null]}]}}`},
+	{"ns-tree-null", "nextstrain", `{"version":"v2","tree":null}`},
+	{"ns-wrong-types", "nextstrain", `{"version":"v2","tree":{"name":"r","children":[{"name":"a","node_attrs":{"div":"x"}},{"name":"b","node_attrs":{"div":1e999}}]}}`},
 	{"ns-deeper", "nextstrain", `{"version":"v2","tree":{"name":"r","node_attrs":{"div":0.5,"num_date":{"value":2019.5}},"branch_attrs":{"labels":{"aa":"x"}},"children":[{"name":"i","node_attrs":{"div":1},"children":[{"name":"i2","children":[{"name":"a","node_attrs":{"div":3,"region":{"value":"eu","entropy":0.1,"confidence":{"eu":0.9}}}},{"name":"b"}]},{"name":"c","node_attrs":{"div":0.25},"children":[]}]},{"name":"d","node_attrs":{"div":null}}]}}`},
 }
 
